@@ -95,7 +95,8 @@ def run_py2v(targets, repo=None):
     if not targets: return 0, ""
     return sh([sys.executable, os.path.join(VERIF, "py2v", "py2v.py"), "--repo", repo or REPO] + list(targets))
 
-def make_targets(targets, jobs=16, timeout=3000):
+def make_targets(targets, jobs=None, timeout=3000):
+    jobs = jobs or int(os.environ.get("VERIF_JOBS", "16"))
     ensure_makefile()
     return sh(["timeout", str(timeout), "make", "-k", f"-j{jobs}"] + targets, cwd=COQ, timeout=timeout + 60)
 
@@ -141,8 +142,9 @@ Set Printing Width 1000000.
 Eval vm_compute in (run_cases {fun} cases).
 """
 
-def run_coq_cases(mod, fun, imports, coq_terms, shard=300, jobs=16, timeout=1800):
+def run_coq_cases(mod, fun, imports, coq_terms, shard=300, jobs=None, timeout=1800):
     """returns dict index -> verdict code (only non-zero), or raises RuntimeError with coqc output"""
+    jobs = jobs or int(os.environ.get("VERIF_JOBS", "16"))
     tmp = tempfile.mkdtemp(prefix="verif_cases_")
     try:
         files = []
